@@ -47,6 +47,13 @@ READONLY_METHODS = ["len", "is_empty", "iter", "get", "last", "first", "clone", 
                     "capacity", "binary_search", "binary_search_by", "starts_with", "ends_with", "windows",
                     "chunks", "split_at", "concat", "join", "to_owned", "as_ptr", "as_ref", "split_first",
                     "split_last", "rchunks", "chunks_exact", "iter_rev", "eq", "ne", "cmp", "partial_cmp"]
+# the scalar bookkeeping of the three resource limits: every place that writes one of them (assignment, compound
+# assignment, or a mutable borrow) is listed, so that a new writer — a helper that resets the meter, a word that hands
+# instructions back — shows up as a difference
+LIMIT_FIELDS = ["insn_meter", "insn_limit", "stack_limit", "heap_limit"]
+# who calls the functions that throw state away: the unwinding of a rejected build, the forgetting of what a build left in
+# the reverse log, the clearing of the last error
+CALLEES = ["build_unwind", "forget_build_log", "clear_last_error", "abort_run"]
 SKIPPED_CFG = ['cfg(test)', 'cfg(feature="verif_hooks")']
 
 PRIM_TYPES = ["u8", "u16", "u32", "u64", "u128", "usize", "i8", "i16", "i32", "i64", "i128", "isize", "bool"]
@@ -1239,6 +1246,141 @@ def mutation_sites(tr):
     return sites
 
 
+def limit_field_writes(tr):
+    """every write of a limit field outside cfg(test) / verif_hooks: (statement, enclosing function), source order"""
+    root = tr.root
+    rows = []
+    for fname in sorted(os.listdir(os.path.join(root, "src"))):
+        if not fname.endswith(".rs"):
+            continue
+        src = tr.source(fname)
+        t = src.toks
+        n = len(t)
+        for i in range(2, n - 1):
+            x = t[i]
+            if x.kind != "ident" or x.text not in LIMIT_FIELDS or t[i - 1].text != "." or t[i - 2].kind != "ident":
+                continue
+            if src.is_skipped(i):
+                continue
+            nx = t[i + 1].text
+            borrowed = i >= 4 and t[i - 3].text == "mut" and t[i - 4].text in ("&", "&&")
+            assigned = nx in ("=", "+=", "-=", "*=", "/=", "%=", "^=", "&=", "|=", "<<=", ">>=")
+            method = nx == "." and i + 3 < n and t[i + 2].kind == "ident" and t[i + 3].text == "(" \
+                and t[i + 2].text in ("take", "replace", "insert", "get_or_insert", "get_or_insert_with", "as_mut", "map_or_else")
+            if not (borrowed or assigned or method):
+                continue
+            # the statement: back to the previous `;` `{` `}`, forward to the next `;`
+            a = i - 2
+            while a > 0 and t[a - 1].text not in (";", "{", "}"):
+                a -= 1
+            b = i
+            depth = 0
+            while b < n and not (t[b].text == ";" and depth == 0):
+                if t[b].text in ("(", "[", "{"): depth += 1
+                elif t[b].text in (")", "]", "}"): depth -= 1
+                b += 1
+            f = src.enclosing_fn(i)
+            rows.append((text_of(t[a:b]), f.name if f else "<top level>", fname))
+    return rows
+
+
+def call_sites(tr):
+    """(callee, enclosing function, file) of every call `.<callee>(` of a function in CALLEES, source order"""
+    root = tr.root
+    rows = []
+    for fname in sorted(os.listdir(os.path.join(root, "src"))):
+        if not fname.endswith(".rs"):
+            continue
+        src = tr.source(fname)
+        t = src.toks
+        for i in range(1, len(t) - 1):
+            if t[i].kind == "ident" and t[i].text in CALLEES and t[i + 1].text == "(" and t[i - 1].text in (".", "::") and not src.is_skipped(i):
+                f = src.enclosing_fn(i)
+                rows.append((t[i].text, f.name if f else "<top level>", fname))
+    return rows
+
+
+def fn_statements(src, f):
+    """the top-level statements of a function body as texts (a block statement such as `if … { … }` is one statement)"""
+    t = src.toks
+    lo, hi = f.body
+    if t[lo].text == "{":
+        lo += 1
+    out, cur, depth = [], [], 0
+    i = lo
+    while i < hi:
+        x = t[i]
+        cur.append(x)
+        if x.text in ("(", "[", "{"): depth += 1
+        elif x.text in (")", "]", "}"):
+            depth -= 1
+            if depth == 0 and x.text == "}" and cur and cur[0].text in ("if", "while", "for", "match", "loop") \
+                    and not (i + 1 < hi and t[i + 1].text in ("else", ".", "?", ";")):
+                out.append(text_of(cur)); cur = []
+        elif x.text == ";" and depth == 0:
+            out.append(text_of(cur[:-1])); cur = []
+        i += 1
+    if cur:
+        out.append(text_of(cur))
+    return out
+
+
+def build_routes(tr):
+    """the two routes into the compiler, statement by statement; the argument lists of `intern_source` are masked (the
+    text and its name are what differs between a text and a file)"""
+    src = tr.source("state.rs")
+    rows = {}
+    for name in ("build_from_source", "build_from_file"):
+        f = src.find_fn(name, "State", name)
+        st = fn_statements(src, f)
+        st = [re.sub(r"self\.intern_source\(.*\)\?$", "self.intern_source(_)?", x) for x in st]
+        rows[name] = st
+    return rows
+
+
+def reverse_log_sites(tr):
+    """every access of `reverse_log` that can change it: (operation, enclosing function), source order (state.rs only:
+    the field is public, other files are scanned too)"""
+    root = tr.root
+    rows = []
+    for fname in sorted(os.listdir(os.path.join(root, "src"))):
+        if not fname.endswith(".rs"):
+            continue
+        src = tr.source(fname)
+        t = src.toks
+        n = len(t)
+        for i in range(2, n - 1):
+            if t[i].kind != "ident" or t[i].text != "reverse_log" or t[i - 1].text != "." or src.is_skipped(i):
+                continue
+            nx = t[i + 1].text
+            kind = None
+            if i >= 4 and t[i - 3].text == "mut" and t[i - 4].text in ("&", "&&"):
+                kind = "&mut"
+            elif nx in ("=", "+=", "-="):
+                kind = "="
+            elif nx == "." and i + 3 < n and t[i + 2].kind == "ident" and t[i + 3].text == "(" and t[i + 2].text not in ("as_ref", "is_some", "is_none", "clone", "iter"):
+                # what is done with the log that was borrowed: the method calls on the closure / if-let binding up to the end of the statement or block
+                kind = t[i + 2].text
+                j = i + 3
+                depth = 0
+                ops = []
+                while j < n:
+                    if t[j].text in ("(", "[", "{"): depth += 1
+                    elif t[j].text in (")", "]", "}"):
+                        depth -= 1
+                        if depth < 0: break
+                    if t[j].text == "." and t[j + 1].kind == "ident" and t[j + 2].text == "(" and t[j - 1].text == "log":
+                        ops.append(t[j + 1].text)
+                    if t[j].text == ";" and depth == 0 and ops: break
+                    j += 1
+                kind = kind + ":" + "+".join(ops)
+            if kind is None:
+                continue
+            f = src.enclosing_fn(i)
+            rows.append((kind, f.name if f else "<top level>", fname))
+    return rows
+
+
 # --------------------------------------------------------------------------------------------
 # output
 # --------------------------------------------------------------------------------------------
@@ -1277,19 +1419,44 @@ def main(argv):
         print(f"extract.py: {root}/src not found", file=sys.stderr)
         return 2
     tr = Translator(root)
-    try:
-        for fname, impl, name, lean_name in LEAF_FUNCTIONS:
+    # one item at a time: what cannot be translated any more becomes a stub (a function that takes nothing and returns
+    # nothing / an empty table), so that exactly the theorems that rest on it stop checking — and the properties that
+    # do not rest on it are not alarmed
+    broken = []
+
+    def stub(lean_name, why):
+        tr.defs = [(n, t) for n, t in tr.defs if n != lean_name]
+        tr.defs.append((lean_name, f"/-- NOT TRANSLATED: {why} -/\ndef {lean_name} : FnAst where\n  name := {lean_str('untranslated: ' + why)}\n  params := []\n  ret := []\n  body := Expr.unit\n"))
+
+    for fname, impl, name, lean_name in LEAF_FUNCTIONS:
+        try:
             tr.translate_fn(fname, impl, name, lean_name)
-        for c in FMT_CONSTANTS:
+        except ExtractError as e:
+            broken.append(str(e)); stub(lean_name, str(e))
+    for c in FMT_CONSTANTS:
+        try:
             tr.translate_const("fmt_flags.rs", c)
+        except ExtractError as e:
+            broken.append(str(e)); stub("src_" + c, str(e))
+    try:
         tr.translate_guard("state.rs", "load_value_opcode", "src_load_i64_guard", "src_load_i64_payload")
-        words = word_table(tr)
-        arith = arith_table(tr, words)
-        limits, effects = limit_checks(tr)
-        sites = mutation_sites(tr)
     except ExtractError as e:
-        print(f"extract.py: TIE B BROKEN — {e}", file=sys.stderr)
-        return 1
+        broken.append(str(e)); stub("src_load_i64_guard", str(e)); stub("src_load_i64_payload", str(e))
+
+    def table(f, *a, empty=()):
+        try:
+            return f(*a)
+        except ExtractError as e:
+            broken.append(str(e))
+            return empty
+    words = table(word_table, tr, empty=[])
+    arith = table(arith_table, tr, words, empty=[])
+    limits, effects = table(limit_checks, tr, empty=([], []))
+    sites = table(mutation_sites, tr, empty=[])
+    lwrites = table(limit_field_writes, tr, empty=[])
+    calls = table(call_sites, tr, empty=[])
+    rlog = table(reverse_log_sites, tr, empty=[])
+    routes = table(build_routes, tr, empty={"build_from_source": [], "build_from_file": []})
 
     leaf = [HEADER, "import XehModel.Model.MachineInt\n", "namespace Xeh.Generated\nopen Xeh.MI\n"]
     for _, text in tr.defs:
@@ -1329,6 +1496,22 @@ def main(argv):
                "    in source order (files by name): (field.operation, enclosing function) -/\n"
                "def src_mutation_sites : List (String × String) := "
                + lean_list([f"({lean_str(a)}, {lean_str(b)})" for a, b, _, _ in sites], 1) + "\n")
+    tab.append("/-- every write of the limit bookkeeping (" + " ".join(LIMIT_FIELDS) + ") outside `#[cfg(test)]` and the\n"
+               "    verif_hooks block, in source order: (statement, enclosing function, file) -/\n"
+               "def src_limit_field_writes : List (String × String × String) := "
+               + lean_list([f"({lean_str(a)}, {lean_str(b)}, {lean_str(c)})" for a, b, c in lwrites], 1) + "\n")
+    tab.append("/-- every call of " + ", ".join(CALLEES) + " outside `#[cfg(test)]` and the verif_hooks block, in source\n"
+               "    order: (callee, enclosing function, file) -/\n"
+               "def src_call_sites : List (String × String × String) := "
+               + lean_list([f"({lean_str(a)}, {lean_str(b)}, {lean_str(c)})" for a, b, c in calls], 1) + "\n")
+    tab.append("/-- every access of the reverse log that can change it: (how — the method taken on the field and what is then done\n"
+               "    with the borrowed log —, enclosing function, file) -/\n"
+               "def src_reverse_log_sites : List (String × String × String) := "
+               + lean_list([f"({lean_str(a)}, {lean_str(b)}, {lean_str(c)})" for a, b, c in rlog], 1) + "\n")
+    tab.append("/-- `State::build_from_source` (eval / compile / evalxstr of a text), statement by statement -/\n"
+               "def src_build_from_source : List String := " + lean_list([lean_str(x) for x in routes["build_from_source"]], 1) + "\n")
+    tab.append("/-- `State::build_from_file` (eval_file / compile_file), statement by statement -/\n"
+               "def src_build_from_file : List String := " + lean_list([lean_str(x) for x in routes["build_from_file"]], 1) + "\n")
     runtime = []
     for a, b, _, _ in sites:
         if a.split(".")[0] in RUNTIME_FIELDS and b not in runtime:
@@ -1345,6 +1528,8 @@ def main(argv):
     os.makedirs(outdir, exist_ok=True)
     ch1 = write_if_changed(os.path.join(outdir, "Leaf.lean"), "\n".join(leaf))
     ch2 = write_if_changed(os.path.join(outdir, "Tables.lean"), "\n".join(tab))
+    for b in broken:
+        print(f"extract.py: TIE B: not translated — {b}", file=sys.stderr)
     print(f"extract.py: {len(tr.defs)} functions/constants, {len(words)} words, {len(arith)} arith rows, "
           f"{len(limits)} limit tests, {len(sites)} mutation sites"
           f" -> {outdir} ({'Leaf.lean ' if ch1 else ''}{'Tables.lean ' if ch2 else ''}{'rewritten' if ch1 or ch2 else 'unchanged'})")
